@@ -13,6 +13,7 @@ import (
 // EFFECT-1 (stdout), EFFECT-4 (host values), MAPORDER-1/2, PAIR-1, SORTLESS-1/2, INTGUARD-1/2.
 
 func init() {
+	reg("PAIR-2", rulePair2)
 	reg("EFFECT-1", ruleEffect1)
 	reg("EFFECT-4", ruleEffect4)
 	reg("MAPORDER-1", ruleMapOrder1)
@@ -1071,4 +1072,133 @@ func ruleIntGuard2(c *Ctx) {
 			return true
 		})
 	})
+}
+
+// PAIR-2: every lock is released on every exit, panics included. For each Lock / RLock of a sync.Mutex / RWMutex: the next
+// statement is the matching deferred unlock, or the matching unlock follows in the same statement list and nothing between
+// the two can panic or return (no calls other than total builtins, no slice/array indexing, no type assertion, no division,
+// no return / branch). A lock that stays held after a failed evaluation blocks every later caller: the API no longer
+// returns (C12), and whether it does depends on what other goroutines did before (C14).
+func rulePair2(c *Ctx) {
+	c.R.Rule("PAIR-2", 1, "every mutex acquired in the module is released on every exit, panicking exits included: Lock/RLock is immediately followed by the matching deferred Unlock/RUnlock, or by the matching unlock later in the same statement list with only non-panicking, non-returning statements in between")
+	lockKind := func(call *ast.CallExpr) (recv string, kind string) {
+		switch c.calleeName(call) {
+		case "sync.Mutex.Lock", "sync.RWMutex.Lock":
+			kind = "Lock"
+		case "sync.RWMutex.RLock":
+			kind = "RLock"
+		case "sync.Mutex.Unlock", "sync.RWMutex.Unlock":
+			kind = "Unlock"
+		case "sync.RWMutex.RUnlock":
+			kind = "RUnlock"
+		default:
+			return "", ""
+		}
+		if se, ok := call.Fun.(*ast.SelectorExpr); ok {
+			recv = sx(unparen(se.X))
+		}
+		return
+	}
+	match := map[string]string{"Lock": "Unlock", "RLock": "RUnlock"}
+	mayPanicOrLeave := func(s ast.Stmt) string {
+		why := ""
+		ast.Inspect(s, func(x ast.Node) bool {
+			switch n := x.(type) {
+			case *ast.FuncLit:
+				return false
+			case *ast.CallExpr:
+				if tv, ok := c.infoAt(n).Types[n.Fun]; ok && tv.IsType() {
+					return true
+				}
+				nm := c.calleeName(n)
+				if strings.HasPrefix(nm, "builtin.") && panicSafeBuiltin[strings.TrimPrefix(nm, "builtin.")] {
+					return true
+				}
+				why = "call " + src(n.Fun)
+			case *ast.IndexExpr:
+				if _, isMap := c.typeOf(n.X).Underlying().(*types.Map); !isMap {
+					why = "index " + src(n)
+				}
+			case *ast.SliceExpr:
+				why = "slice " + src(n)
+			case *ast.TypeAssertExpr:
+				why = "type assertion " + src(n)
+			case *ast.ReturnStmt:
+				why = "return"
+			case *ast.BranchStmt:
+				why = n.Tok.String()
+			case *ast.BinaryExpr:
+				if n.Op == token.QUO || n.Op == token.REM {
+					why = "division"
+				}
+			}
+			return why == ""
+		})
+		return why
+	}
+	n := 0
+	c.eachFuncDecl(func(pk *packages.Package, fd *ast.FuncDecl) {
+		if fd.Body == nil {
+			return
+		}
+		owner := fnName(short(pk.PkgPath), fd)
+		var visit func(list []ast.Stmt)
+		visit = func(list []ast.Stmt) {
+			for i, s := range list {
+				es, ok := s.(*ast.ExprStmt)
+				if !ok {
+					continue
+				}
+				call, ok := es.X.(*ast.CallExpr)
+				if !ok {
+					continue
+				}
+				recv, kind := lockKind(call)
+				if kind != "Lock" && kind != "RLock" {
+					continue
+				}
+				n++
+				desc := kind + " of " + src(call.Fun.(*ast.SelectorExpr).X) + " released on every exit"
+				// deferred unlock right after
+				if i+1 < len(list) {
+					if d, ok := list[i+1].(*ast.DeferStmt); ok {
+						if r2, k2 := lockKind(d.Call); r2 == recv && k2 == match[kind] {
+							c.R.OK(owner, desc, call.Pos(), "the next statement defers the matching "+match[kind])
+							continue
+						}
+					}
+				}
+				ok2, why := false, "no matching "+match[kind]+" in the same statement list"
+				for j := i + 1; j < len(list); j++ {
+					if e2, ok := list[j].(*ast.ExprStmt); ok {
+						if c2, ok := e2.X.(*ast.CallExpr); ok {
+							if r2, k2 := lockKind(c2); r2 == recv && k2 == match[kind] {
+								ok2 = true
+								break
+							}
+						}
+					}
+					if w := mayPanicOrLeave(list[j]); w != "" {
+						why = "between the lock and its explicit " + match[kind] + " stands `" + trunc(src(list[j]), 60) + "` (" + w + "), which can panic or leave: the lock then stays held"
+						break
+					}
+				}
+				if ok2 {
+					c.R.OK(owner, desc, call.Pos(), "explicit "+match[kind]+" in the same list with nothing in between that can panic or leave")
+				} else {
+					c.R.Bad(owner, desc, call.Pos(), "%s: after a failed evaluation every later caller of this engine blocks forever", why)
+				}
+			}
+		}
+		ast.Inspect(fd.Body, func(x ast.Node) bool {
+			switch b := x.(type) {
+			case *ast.BlockStmt:
+				visit(b.List)
+			case *ast.CaseClause:
+				visit(b.Body)
+			}
+			return true
+		})
+	})
+	c.R.Check(n >= 1, "timelib", "lock sites found", token.NoPos, "the time-zone cache mutex is seen", "no Lock call found in the module: the scan is not seeing the program")
 }
